@@ -284,3 +284,46 @@ func CfgString(c gen.Config) string {
 	}
 	return "[" + strings.Join(parts, " ") + "]"
 }
+
+// Underlying follows declared non-struct types to their type expression.
+func (m *FileModel) Underlying(t string) string {
+	for i := 0; i < 8; i++ {
+		td := m.Types[t]
+		if td == nil || m.Structs[t] != nil {
+			return t
+		}
+		t = td.Type
+	}
+	return t
+}
+
+// StructsWithField lists the structs having a field tagged with the raw property name.
+func (m *FileModel) StructsWithField(name *absint.Atom, tagKey string) []*Struct {
+	want := AtomText(name)
+	var names []string
+	for n := range m.Structs {
+		names = append(names, n)
+	}
+	sort.Strings(names)
+	var out []*Struct
+	for _, n := range names {
+		if m.Structs[n].FieldByTag(want, tagKey) != nil {
+			out = append(out, m.Structs[n])
+		}
+	}
+	return out
+}
+
+// FieldByTag finds the field whose tag names `want`.
+func (s *Struct) FieldByTag(want, tagKey string) *Field {
+	for _, f := range s.Fields {
+		v := f.Tags[tagKey]
+		if i := strings.IndexByte(v, ','); i >= 0 {
+			v = v[:i]
+		}
+		if v == want {
+			return f
+		}
+	}
+	return nil
+}
